@@ -82,7 +82,15 @@ def obligations(prog, src, tier, seed):
         r = p.value
         if r.variant == "Err":
             return [("a URI with a scheme must yield a key", z3.Not(u.has_scheme))]
-        return [("a URI without a scheme must be rejected", u.has_scheme)]
+        key = r.f[0]
+        sch, auth = key.f[0], key.f[1]
+        props = [("a URI without a scheme must be rejected", u.has_scheme)]
+        props.append(("the key's scheme is the request URI's scheme", sch.text == u.scheme))
+        if auth.variant == "Some":
+            props.append(("the key's authority is the request URI's authority (host and port)", z3.And(u.has_auth, z3.BoolVal(auth.f[0] is u.auth))))
+        else:
+            props.append(("the key drops the authority of the request URI", z3.Not(u.has_auth)))
+        return props
 
     obs.append({"name": "c17_urikey_total", "family": "urikey", "funcs": ["<UriKey as TryFrom<&request::Parts>>::try_from"], "bound": "every URI form",
                 "doc": "key extraction returns Ok/Err(MissingScheme), never panics", "run": run_key, "check": check_key})
